@@ -237,7 +237,10 @@ def check_C15():
         if any(t_ == "JsonSchema" for b in src["blocks"] for t_ in b["der"]):
             continue
         o = json.loads(json.dumps(obj))
-        o["src"]["feats"] = ["arbitrary", "serde"]
+        # features (and with them the dependencies of the generated crate) follow the derive list: only declarations that
+        # derive Arbitrary link the `arbitrary` crate (which needs std); the others are built in a crate graph without std
+        der = set(t_ for b in src["blocks"] for t_ in b["der"])
+        o["src"]["feats"] = (["arbitrary"] if "Arbitrary" in der else []) + (["serde"] if der & {"Serialize", "Deserialize"} else [])
         sel[k] = o
     ids = sorted(sel)
     if T == "quick" and len(ids) > 900:
@@ -269,10 +272,13 @@ def check_C15():
            "traces_validated_against_impl": summary["events"], "declarations_built_no_std": len(ids), "accepted": acc,
            "evaluations": len(ids), "distinct_nontrivial": len(ids),
            "rule": "every integer/float/other declaration that the reference predicate classifies as well-formed (slices T and K of MC_Decl: derive sets x validation kinds x "
-                   "const_fn/default/custom error/generics) is built inside a generated #![no_std] library crate against nutype with default-features = false (+serde, +arbitrary); "
+                   "const_fn/default/custom error/generics, and the generic forms of slice L) is built inside a generated #![no_std] library crate against nutype with default-features = false "
+                   "(features and dependencies follow the derive list: none, serde without std, or serde + arbitrary), as library and as test target; "
                    "TLC validates the verdicts against Class. Level: configuration enumeration with rustc as judge; the specification contributes the space and the expected verdict.",
            "samples": [{"declaration": decl_only(sel[ids[0]]["src"]).strip().splitlines(), "verdict": verdicts[ids[0]][0]}],
            "exhaustive": T == "thorough"}
     ev = {"tier": T, "seed": seed(), "level": "model_checking", "coverage": cov,
-          "assumptions": ["host-target #![no_std] library crate: a `::std::` path or a std-prelude macro fails (E0433 / cannot find macro); std-only inherent methods would not"]}
+          "assumptions": ["host-target #![no_std] library crate: a `::std::` path or a std-prelude macro fails (E0433 / cannot find macro); the crate graph of a declaration "
+                          "that does not derive Arbitrary contains no crate that links std (serde with default-features = false), so std-only inherent methods (f64::mul_add, ..) "
+                          "fail too (E0599; mutation-tested); with derive(Arbitrary) the arbitrary crate links std and such methods would resolve"]}
     return verdict.finish(ev, t.s())
